@@ -1024,7 +1024,9 @@ def fifo_stream(
         It should not modify its input.
     """
 
-    def feed(instream, func, *, to_stop, q, preprocessor, **func_kwargs):
+    def feed(instream, func, to_stop, q, preprocessor, /, **func_kwargs):
+        # The leading parameters are positional-only so that they do not share
+        # a namespace with the user's keyword arguments in `func_kwargs`.
         try:
             for x in instream:
                 if to_stop.is_set():
@@ -1051,8 +1053,8 @@ def fifo_stream(
     to_stop = threading.Event()
     feeder = Thread(
         target=feed,
-        args=(instream, func),
-        kwargs={'to_stop': to_stop, 'q': tasks, 'preprocessor': preprocessor, **kwargs},
+        args=(instream, func, to_stop, tasks, preprocessor),
+        kwargs=kwargs,
         name=name,
     )
     feeder.start()
@@ -1113,7 +1115,7 @@ async def async_fifo_stream(
     Analogous to :func:`fifo_stream` except for using an async worker function in an async context.
     """
 
-    async def feed(instream, func, *, to_stop, tasks, preprocessor, **func_kwargs):
+    async def feed(instream, func, to_stop, tasks, preprocessor, /, **func_kwargs):
         try:
             async for x in instream:
                 if to_stop.is_set():
@@ -1142,9 +1144,9 @@ async def async_fifo_stream(
         feed(
             instream,
             func,
-            to_stop=to_stop,
-            tasks=tasks,
-            preprocessor=preprocessor,
+            to_stop,
+            tasks,
+            preprocessor,
             **kwargs,
         ),
         name=name,
